@@ -20,7 +20,8 @@
    sample values                            abstract type; executable instance: stream positions 0,1,2,..
                                             (`s*` functions at the end: recipes "i-th value of the one-shot
                                             computation", evaluated by the harness with the same primitive)
-   Defects repaired by the fix-C12 commits are selected by the flag [rep] (true = repaired code). *)
+   Defects repaired by the fix-C12 commits are selected by the flag [rep] (true = repaired code); the later
+   repair of event_rate's left-over (fix-C12-er) has its own variant [er_loop_unrepaired] / [er_step_unrepaired]. *)
 From PV Require Export Common.PySlice.
 
 Record ann := An { a_s0 : Z; a_fsd : Z; a_ch : option (list Z); a_md : Z }.
@@ -327,18 +328,29 @@ Definition get_range (e : events) (s t : Z) : option events :=
 Definition combine_events (a b : events) : option events :=
   if e_lo b =? e_hi a then Some (Ev (evs a ++ evs b) (e_lo a) (e_hi b)) else None.
 
+(* the left-over of one pass of the window loop.
+   repaired (fix-C12-er):   start = events.start + block_step
+                            keep = events.events['sample'] >= start
+                            events = Events(events.events[keep], start, events.end, events.fs)
+   i.e. trimmed on the LEFT only: an event at or after events.end (pipeline.edges reports a confirmed rising edge up
+   to min_samples late and a falling edge immediately, so a block may carry events at or after its own end) stays in
+   the state until a later block completes the window it belongs to.  No range check, hence no ValueError.
+   unrepaired ([er_loop_unrepaired] below): events.get_range_samples(events.start + block_step, events.end), whose
+   mask start <= sample < end also drops every event at or after events.end. *)
+Definition trim_left (e : events) (s : Z) : events := Ev (filter (fun x => s <=? x) (evs e)) s (e_hi e).
+
 Fixpoint er_loop (fuel : nat) (bsz stp : Z) (e : events) : option (list Z * events) :=
   if e_hi e - e_lo e >? bsz then
     match fuel with
     | O => None
     | Datatypes.S f =>
-      match get_range e (e_lo e) (e_lo e + bsz), get_range e (e_lo e + stp) (e_hi e) with
-      | Some b, Some e' =>
-        match er_loop f bsz stp e' with
+      match get_range e (e_lo e) (e_lo e + bsz) with
+      | Some b =>
+        match er_loop f bsz stp (trim_left e (e_lo e + stp)) with
         | Some (cs, e'') => Some (zlen (evs b) :: cs, e'')
         | None => None
         end
-      | _, _ => None
+      | None => None
       end
     end
   else Some ([], e).
@@ -358,6 +370,48 @@ Definition er_step (rep : bool) (bsz stp : Z) (s : option er_st) (c : events)
   | Some (e, s0, process) =>
     if process then
       match er_loop (Z.to_nat (e_hi e - e_lo e)) bsz stp e with
+      | None => None
+      | Some (cs, e') =>
+        match cs with
+        | [] => Some (Some (ErSt e' s0), [])
+        | _ => Some (Some (ErSt e' (s0 + 2 * zlen cs)), [Rb cs s0 stp])
+        end
+      end
+    else Some (Some (ErSt e s0), [])
+  end.
+
+(* event_rate before the repair "event_rate keeps events reported ahead of their block's span" (fix-C12-er): the
+   left-over is cut on both sides by get_range_samples.  [er_step_unrepaired true] is the code between the fix-C12
+   commits and that repair, [er_step_unrepaired false] the original code (first chunk only stored, too). *)
+Fixpoint er_loop_unrepaired (fuel : nat) (bsz stp : Z) (e : events) : option (list Z * events) :=
+  if e_hi e - e_lo e >? bsz then
+    match fuel with
+    | O => None
+    | Datatypes.S f =>
+      match get_range e (e_lo e) (e_lo e + bsz), get_range e (e_lo e + stp) (e_hi e) with
+      | Some b, Some e' =>
+        match er_loop_unrepaired f bsz stp e' with
+        | Some (cs, e'') => Some (zlen (evs b) :: cs, e'')
+        | None => None
+        end
+      | _, _ => None
+      end
+    end
+  else Some ([], e).
+
+Definition er_step_unrepaired (rep : bool) (bsz stp : Z) (s : option er_st) (c : events)
+  : option (option er_st * list rblk) :=
+  match (match s with
+         | None => Some (c, 2 * e_lo c + bsz, rep)
+         | Some st => match combine_events (er_ev st) c with
+                      | Some e => Some (e, er_s0x2 st, true)
+                      | None => None
+                      end
+         end) with
+  | None => None
+  | Some (e, s0, process) =>
+    if process then
+      match er_loop_unrepaired (Z.to_nat (e_hi e - e_lo e)) bsz stp e with
       | None => None
       | Some (cs, e') =>
         match cs with
@@ -468,3 +522,14 @@ Definition check_iir_e (rep : bool) h s0 sizes got : bool :=
   eqb_outs (outs_of (run (iir_step_e rep sfilt sfinit) None (inputs h s0 sizes))) got.
 Definition check_decimate_e (rep : bool) (q : Z) h s0 sizes got : bool :=
   eqb_outs (outs_of (run (decimate_step_e rep sfilt 0 q) None (inputs h s0 sizes))) got.
+
+(* added with the repair "event_rate keeps events reported ahead of their block's span": the same two checks against
+   the code before that repair (used by hand, C12_MODEL_ER_UNREPAIRED=1, to tie [er_step_unrepaired] to the old tree) *)
+Definition check_event_rate_unrepaired (rep : bool) (bsz stp : Z) (cs : list events) (got : option (list rblk)) : bool :=
+  eqb_option (eqb_list eqb_rblk) (outs_of (run (er_step_unrepaired rep bsz stp) None cs)) got.
+Definition check_event_rate_counts_unrepaired (rep : bool) (bsz stp : Z) (cs : list events) (got : option (list (list Z))) : bool :=
+  eqb_option (eqb_list eqb_listZ)
+             (match outs_of (run (er_step_unrepaired rep bsz stp) None cs) with
+              | Some o => Some (map r_counts o)
+              | None => None
+              end) got.
